@@ -400,6 +400,140 @@ def gen_sliver3(rng, idx=None):
             "eps": F(1, 2 ** 20), "aeps": rng.choice([F(1, 2 ** 10), F(0)])}
 
 
+# ---- layouts that do not tile their bounding box ----
+# C02 / C12 quantify over all non-overlapping cell layouts: nothing says the cells fill a rectangle.  The guillotine
+# generators only leave holes by dropping cells of a partition, so the boundaries of the remaining cells stay those of
+# a partition.  Here the rows / columns themselves are shifted against each other (running bond, stairs, rows of other
+# brick sizes), cells are separated by gaps, or the union is L-shaped / a pinwheel around a hole; with EQUAL shapes
+# (every cell w x h: "looks like a regular grid" by shape, is none by position) and with unequal ones; regular grids
+# with holes and L-shaped unions of aligned equal squares are the controls on which griddify has nothing to cut.
+NONTILING_KINDS = ["brick-rows", "brick-cols", "stair", "brick-gaps", "brick-mixed", "L", "pinwheel", "grid-holes",
+                   "brick-rows", "stair-T", "brick-gaps-T", "brick-mixed-T", "L-equal", "brick-sliver"]
+BRICKS = [(F(2), F(1)), (F(4), F(2)), (F(1), F(1)), (F(3), F(1)), (F(2), F(2)), (F(3, 2), F(1, 2)), (F(8), F(1)), (F(1), F(2)),
+          (F(4), F(4)), (F(5, 2), F(1))]
+
+
+def nontiling_boxes(rng, kind):
+    """(boxes, equal): the cells of a layout of the kind (origin at 0, 0) and whether all have the same shape"""
+    w, h = rng.choice(BRICKS)
+    shifts = [F(k, 4) for k in range(1, int(w * 4))]
+    s = rng.choice([w / 2, w / 2, w / 4, rng.choice(shifts), rng.choice(shifts)])
+    base = kind[:-2] if kind.endswith("-T") else kind
+    boxes, equal = [], True
+    if base in ("brick-rows", "brick-cols"):
+        # running bond: every other row starts s further right
+        rows, per = rng.choice([2, 2, 3, 4]), rng.choice([1, 2, 2, 3])
+        boxes = [((j % 2) * s + i * w, j * h, (j % 2) * s + (i + 1) * w, (j + 1) * h)
+                 for j in range(rows) for i in range(per if j % 2 == 0 or rng.random() < 0.6 else max(per - 1, 1))]
+    elif base == "stair":
+        rows, per = rng.choice([2, 3, 4, 5]), rng.choice([1, 1, 2])
+        boxes = [(j * s + i * w, j * h, j * s + (i + 1) * w, (j + 1) * h) for j in range(rows) for i in range(per)]
+    elif base == "brick-gaps":
+        # gaps inside the rows and between them, every row with its own offset
+        rows, per = rng.choice([2, 3, 3]), rng.choice([2, 2, 3])
+        g, gy = rng.choice([F(1, 4), F(1, 2), F(1), w]), rng.choice([F(0), F(0), F(1, 2), h])
+        for j in range(rows):
+            off = rng.choice([F(0), s, s, g, rng.choice(shifts)])
+            boxes += [(off + i * (w + g), j * (h + gy), off + i * (w + g) + w, j * (h + gy) + h) for i in range(per)
+                      if rng.random() < 0.85]
+    elif base == "brick-mixed":
+        # every row its own brick width (and height): unequal shapes, shifted rows, ragged right end
+        y = F(0)
+        for j in range(rng.choice([2, 3, 3, 4])):
+            wj, hj = rng.choice(BRICKS)
+            off = rng.choice([F(0), F(0), s, F(1, 2), F(3, 4)])
+            boxes += [(off + i * wj, y, off + (i + 1) * wj, y + hj) for i in range(rng.choice([1, 2, 3]))]
+            y += hj
+        equal = False
+    elif base == "L":
+        # A with a lower neighbour to the right and a narrower one on top: an L-shaped / stepped union
+        a, b = F(rng.choice([4, 6, 8])), F(rng.choice([4, 6, 8]))
+        c, d = F(rng.choice([1, 2, 3])), F(rng.randrange(1, int(b) * 2), 2)
+        e, f = F(rng.randrange(1, int(a) * 2), 2), F(rng.choice([1, 2, 3]))
+        boxes = [(F(0), F(0), a, b), (a, F(0), a + c, d), (F(0), b, e, b + f)]
+        if rng.random() < 0.5:
+            boxes.append((a + c, F(0), a + 2 * c, d / 2))
+        if rng.random() < 0.3:
+            boxes[0:1] = [(F(0), F(0), a / 2, b), (a / 2, F(0), a, b)]
+        equal = False
+    elif base == "L-equal":
+        # control: aligned equal cells whose union is an L / a staircase (nothing to cut)
+        n = rng.choice([2, 3, 4])
+        boxes = [(i * w, j * h, (i + 1) * w, (j + 1) * h) for j in range(n) for i in range(n - j)]
+    elif base == "pinwheel":
+        # four w x h / h x w cells around a hole (equal up to rotation; equal when w = h is excluded)
+        if w == h:
+            w = 2 * h
+        boxes = [(F(0), F(0), w, h), (w, F(0), w + h, w), (h, w, w + h, w + h), (F(0), h, h, w + h)]
+        equal = False
+    elif base == "grid-holes":
+        # control: a regular grid of equal cells with holes
+        nx, ny = rng.choice([2, 3, 4]), rng.choice([2, 3])
+        boxes = [(i * w, j * h, (i + 1) * w, (j + 1) * h) for j in range(ny) for i in range(nx)]
+        keep = [b for b in boxes if rng.random() < 0.65]
+        boxes = keep if len(keep) >= 2 else boxes[:1] + boxes[-1:]
+    else:
+        # brick-sliver: equal bricks, the rows shifted by less than 1% of the brick's height (the shifted boundary is an
+        # exempt sliver cut) or by just more (a due cut)
+        W, H, dd = rng.choice([(F(2), F(64), F(1, 2)), (F(4), F(128), F(1)), (F(2), F(64), F(3, 4)), (F(4), F(128), F(3, 2)),
+                               (F(1), F(32), F(1, 4)), (F(1), F(32), F(1, 2))])
+        per = rng.choice([1, 2])
+        boxes = [((j % 2) * dd + i * W, j * H, (j % 2) * dd + (i + 1) * W, (j + 1) * H)
+                 for j in range(rng.choice([2, 3])) for i in range(per)]
+    if len(boxes) < 2:
+        boxes = [(F(0), F(0), w, h), (s, h, s + w, 2 * h)]
+    boxes = boxes[:12]
+    if base == "brick-cols" or kind.endswith("-T"):
+        boxes = [(b[1], b[0], b[3], b[2]) for b in boxes]
+    return boxes, equal
+
+
+def gen_nontiling(rng, idx=None):
+    """A layout that does not tile its bounding box (see NONTILING_KINDS) under refine / uniform / griddify: half of the
+    cases as chains on fresh objects (must_be_refined probed around every operation), half as histories on shared
+    objects (gridded twice, after a refine / uniform, after a flag set in place; input forms by vary)."""
+    i = rng.randrange(10 ** 6) if idx is None else idx
+    kind = NONTILING_KINDS[i % len(NONTILING_KINDS)]
+    boxes, equal = nontiling_boxes(rng, kind)
+    x0, y0 = F(rng.randrange(0, 6), 2), F(rng.randrange(0, 6), 2)
+    mods = ac.MODS[:3]
+    same_depth = rng.random() < 0.5
+    cells = []
+    for b in boxes:
+        r = {"cx": x0 + (b[0] + b[2]) / 2, "cy": y0 + (b[1] + b[3]) / 2, "w": b[2] - b[0], "h": b[3] - b[1],
+             "fixed": False, "hard": False, "region": rng.choice(["_", "_", "_", "dsp"]), "loc": "NOPOLY"}
+        al = [[m, rng.choice(ac.RATIOS[1:])] for m in rng.sample(mods, rng.randrange(0, 3))]
+        if rng.random() < 0.1:
+            r["fixed"] = r["hard"] = True
+            al = [["FX", F(1)]]
+        cells.append({"rect": r, "alloc": al, "depth": 0 if same_depth else rng.choice([0, 0, 1, 2])})
+    if not any(c["alloc"] and not c["rect"]["fixed"] for c in cells):
+        cells[0] = dict(cells[0], rect=dict(cells[0]["rect"], fixed=False, hard=False), alloc=[["M1", F(1, 2)]])
+    rng.shuffle(cells)
+    ratios = [q for c in cells for _, q in c["alloc"]]
+    t = rng.choice([F(1), F(1), F(1, 2), rng.choice(ratios)])
+    tag = f"nontiling-{kind}{'-eq' if equal else ''}"
+    eps, aeps = F(1, 2 ** 20), rng.choice([F(1, 2 ** 10), F(0)])
+    if (i // len(NONTILING_KINDS)) % 2 == 0:
+        ops = rng.choice([[["griddify"]], [["griddify"]], [["griddify"], ["griddify"]], [["uniform"], ["griddify"]],
+                          [["refine", t, 1], ["griddify"]], [["griddify"], ["refine", t, rng.choice([1, 2])]],
+                          [["griddify"], ["uniform"]], [["uniform"]], [["refine", t, rng.choice([1, 2, 3])]]])
+        return {"kind": tag, "cells": cells, "ops": ops, "ths": [F(0), F(1, 4), F(1, 2), F(1), t], "eps": eps, "aeps": aeps}
+    hops = rng.choice([
+        [["apply", 0, ["griddify"]]],
+        [["apply", 0, ["griddify"]], ["apply", 1, ["griddify"]]],
+        [["mbr", 0, t], ["apply", 0, ["griddify"]], ["mbr", 1, t], ["apply", 1, ["refine", t, 1]]],
+        [["apply", 0, ["uniform"]], ["apply", 1, ["griddify"]], ["apply", 0, ["griddify"]]],
+        [["apply", 0, ["refine", t, 1]], ["apply", 1, ["griddify"]], ["apply", 0, ["griddify"]]],
+        [["apply", 0, ["griddify"]], ["setfixed", 0, rng.randrange(0, 16), True], ["apply", 0, ["griddify"]],
+         ["setfixed", 0, rng.randrange(0, 16), False], ["apply", 0, ["griddify"]]],
+        [["numrect", 0], ["apply", 0, ["griddify"]], ["numrect", 1], ["areas", 1], ["apply", 1, ["uniform"]]],
+        [["copy", 0], ["apply", 1, ["griddify"]], ["apply", 0, ["griddify"]]],
+        [["mbr", 0, t], ["apply", 0, ["refine", t, 2]], ["apply", 0, ["uniform"]], ["apply", 1, ["uniform"]]],
+    ])
+    return {"kind": tag, "cells": cells, "hops": hops, "eps": eps, "aeps": aeps}
+
+
 def vary(rng, case):
     """Apply (independently, each with a small probability) the variations to a generated history case."""
     tags = []
